@@ -124,16 +124,20 @@ CHECKS = {
                   "dies after ANY prefix of these programs leaves a well-formed directory whose content is the log before or the log "
                   "after the Delete (all or nothing), every index file absent or the derived one, and Open in any mode re-establishes "
                   "Inv on it (hence all views agree). The swap of a REBASING delete is proved NOT to have this property (known finding "
-                  "F6: after its first step both the old and the rewritten segment exist). NOT proved: the step orders of rollover, of "
+                  "F6: after its first step both the old and the rewritten segment exist). (3) the creation of a new empty head at NextOffset "
+                  "(log file, then index file): after either step the directory is well formed and holds the same log - this is every "
+                  "directory step of a Publish (rollover; publish_prog), and the first steps of a Delete that removes the newest message of "
+                  "the writing segment (repair F8), for which the whole programs (new head, then in-place swap; new head, then removal of "
+                  "the old files) are proved crash-safe, so NextOffset never moves backwards. NOT proved: the step orders of "
                   "Recover's and Migrate's own temporary files, and of index.Write - decided by the crash harness only. Tied to /repo by "
                   "the FS tap (tag verif): 40+ workloads (publish batches with rollover, all delete shapes, reopen with Recover, migrate), "
-                  "the file-system steps of every Delete compared with the program CrashDir.delete_prog computes for it, a directory "
+                  "the file-system steps of every Delete and every Publish compared with the programs CrashDir.delete_prog / publish_prog compute, a directory "
                   "image after every file-system step plus torn variants of every append; each image is opened with Recover on the "
                   "implementation and on the model (loaded from the same bytes): full observation compared, acked-state oracle "
                   "(published-and-not-deleted, prefix of in-flight batch, delete all-or-nothing), views agree, NextOffset monotone, "
                   "second Recover identical, append + Check + recover again. Known findings F6 and F14; five other defects were fixed.",
              ref='6/C05', technique='Coq proof (torn-append recovery on bytes; crash-safety of the swap programs on the directory) + exhaustive crash-image enumeration through an FS tap',
-             note="Rollover, Recover's and Migrate's temporary-file protocols are explored by enumeration of the implementation's own FS "
+             note="Recover's and Migrate's temporary-file protocols and index.Write are explored by enumeration of the implementation's own FS "
                   "events (every step, every torn append) on a finite set of workloads, not proved. " + COMMON_NOTE),
  'C06': dict(text="Partial. Proved (Coq): a clean log file cut at ANY byte at or after its header (what a power loss leaves when it keeps a "
                   "prefix at least as long as the fsynced length) is recovered to exactly the records lying entirely below the cut: a prefix "
@@ -153,7 +157,8 @@ CHECKS = {
                   "Recover of the closed directory - of any length, every reachable state of the segment-list model is Good (closed and "
                   "well-formed, open with Inv, or the virtual read-only handle of an empty directory) and its abstract log is the fold of the "
                   "abstract steps: a successful Publish appends exactly its messages, a successful Delete removes exactly what it reported, "
-                  "nothing else changes the live messages or NextOffset (history_refines); Consume/Get on any such state show exactly that "
+                  "nothing else changes the live messages or NextOffset (history_refines) - in particular a Publish that fails, a batch "
+                  "refused for an oversized message after the writing segment was rolled over included, publishes nothing; Consume/Get on any such state show exactly that "
                   "abstract log, in strictly increasing offset order (C03/C04 theorems). Trim/compaction helpers are compositions of these "
                   "calls (their loops are transcribed in Helpers.v and exercised by the correspondence; GC only drops caches and is a no-op "
                   "of the model). Tied to /repo by seeded histories over all those operations incl. trims, compaction, GC and reopen with "
